@@ -136,16 +136,26 @@ package mongodb
 //@ func (*MongoCollections).InsertSnapshot
 //@   trusted MongoDB InsertOne of the snapshot document {duid:sseq, colNum, duid, sseq, meta, snapshot}
 //@   mode math
+//@   props C11 C10
+//@   requires ctx != nil
+//@   checks[one-insert-on-snapshots] G.qCount == old(G.qCount) + 1 && G.qKind == "InsertOne" && G.qColl == old(its.snapshots)
+//@   checks[document-names-datatype-and-version] G.qDoc != nil && G.qDoc.(bson.M) && G.qDoc.(as bson.M)["sseq"] == box(sseq) && G.qDoc.(as bson.M)["duid"] == box(duid) && G.qDoc.(as bson.M)["colNum"] == box(collectionNum) && G.qDoc.(as bson.M)["_id"] == box(strcat(duid, ":", dec(sseq)))
+//@   checks[database-error-is-reported] G.qErr != nil ==> result != nil
 //@   ensures result == nil ==> G.snapInserts == old(G.snapInserts) + 1 && G.insSnapSseq == sseq
 //@   ensures result != nil ==> G.snapInserts == old(G.snapInserts)
-//@   modifies G:snapInserts, G:insSnapSseq
+//@   modifies G:snapInserts, G:insSnapSseq, alloc, G:qKind, G:qColl, G:qDoc, G:qCount, G:qErr, map[string]interface{}
 
 //@ func (*RepositoryMongo).InsertRealSnapshot
 //@   trusted BSON conversion + MongoDB ReplaceOne(upsert) of the user-visible document with _orda_ver_ = sseq
 //@   mode math
+//@   props C11
+//@   requires ctx != nil && its.db != nil
+//@   checks[one-upsert-of-the-users-document] result == nil ==> G.qKind == "ReplaceOne" && G.qUpsert && len(qf()) == 1 && eqAt(qf(), 0, "_id", id)
+//@   checks[version-recorded-last] result == nil ==> G.qDoc != nil && G.qDoc.(bson.M) && G.qDoc.(as bson.M)["_orda_ver_"] == box(sseq)
+//@   checks[database-error-is-reported] G.qCount > old(G.qCount) && G.qErr != nil ==> result != nil
 //@   ensures result == nil ==> G.realInserts == old(G.realInserts) + 1 && G.insRealVer == sseq
 //@   ensures result != nil ==> G.realInserts == old(G.realInserts)
-//@   modifies G:realInserts, G:insRealVer
+//@   modifies G:realInserts, G:insRealVer, alloc, G:qKind, G:qColl, G:qFilter, G:qDoc, G:qUpsert, G:qCount, G:qErr, map[string]interface{}
 
 //@ ghost field G.clientWrites mathint
 
